@@ -56,7 +56,7 @@ def table(draw, need=()):
             elif c == "resp":
                 row[c] = draw(st.sampled_from(RESPS))
             elif c == "val":
-                row[c] = draw(st.sampled_from(["1", "2", "3", "10"]))
+                row[c] = draw(st.sampled_from(["1", "2", "3", "10", "1", "2", "3", "10", "n/a"]))
             else:
                 row[c] = draw(st.sampled_from(["x", "y", "n/a", "x", "y", "n/a", "NA", "None", "nan"]))   # text, not missing
         rows.append(row)
